@@ -232,7 +232,9 @@ def pipeline_cases(draw):
                 quote=draw(st.sampled_from(("'", '"'))), comments=draw(st.booleans()),
                 subprocess=draw(st.integers(0, 39)) == 7,
                 # the -f argument is a symbolic link (another name in inputs/) to the real file
-                symlink=draw(st.one_of(st.none(), st.none(), IDENT)))
+                symlink=draw(st.one_of(st.none(), st.none(), IDENT)),
+                # an earlier run of the same file name left a report behind: same first game, later games different
+                stale_report=draw(st.sampled_from((None, None, "drop_last", "change_last_rewards", "reverse_rest"))))
 
 
 FLOATS = st.one_of(st.floats(allow_nan=False, allow_infinity=False, width=64), st.sampled_from((float("inf"), 0.1, 1 / 3, 1e-300, -0.0)),
@@ -364,6 +366,40 @@ def check_pipeline(case, v):
             facts.append(f)
     d = boards.clean_scratch()
     path = os.path.join(d, "inputs", case["fname"] + ".py")
+    how = case.get("stale_report")
+    if how and len(names) >= 2 and not case.get("symlink"):
+        # history: the same input file name was run before with other content after its first game, and its
+        # report is still in outputs/ - the new report must nevertheless state what is computed now
+        import copy as _copy
+        old_names, old_games = list(names), [_copy.deepcopy(g["game"]) for g in glist]
+        if how == "drop_last":
+            old_names, old_games = old_names[:-1], old_games[:-1]
+        elif how == "reverse_rest":
+            old_names = old_names[:1] + old_names[1:][::-1]
+            old_games = old_games[:1] + old_games[1:][::-1]
+        else:
+            last = old_games[-1]
+            if isinstance(last.get("rewards"), list):
+                last["rewards"] = [x + 1 if isinstance(x, (int, float)) and not isinstance(x, bool) and x > 0 else x
+                                   for x in last["rewards"]]
+        old_text, _ = render_file(old_names, old_games, case["styles"][:len(old_names)], case["quote"], case["comments"])
+        with open(path, "w") as f:
+            f.write(old_text)
+        cwd0, argv0 = os.getcwd(), sys.argv
+        os.chdir(d)
+        sys.argv = ["conditionalrewards.py", "-f", f"inputs/{case['fname']}.py", "-s"]
+        try:
+            with budgeted_many(facts, extra_modules=(cr,)):
+                cr.main()
+            v.cls("older_report_present")
+        except BaseException as e:
+            if isinstance(e, KeyboardInterrupt):
+                raise
+            for fn in os.listdir(os.path.join(d, "outputs")):
+                os.remove(os.path.join(d, "outputs", fn))
+        finally:
+            sys.argv = argv0
+            os.chdir(cwd0)
     with open(path, "w") as f:
         f.write(text)
     # reader
